@@ -123,6 +123,11 @@ func (*footnoteParser).Parse
 
 // ---- tables (C17): every body row has exactly as many cells as there are columns ----
 // child lists of nodes that existed before a call are untouched by it
+// every cell of a row carries the alignment of its column or none (none: cells beyond the declared columns and the
+// cells a short row is padded with - the property only asks it of cells written in the source)
+macro cellAlign(row, j) = ifptr(kid(row, j), "*ast.TableCell").Alignment
+macro cellsAligned(row, n) = forall j int {kid(row, j)} :: (0 <= j && j < n) ==> (typeis(kid(row, j), "*ast.TableCell") && (cellAlign(row, j) == east.AlignNone || (j < len(alignments) && cellAlign(row, j) == alignments[j])))
+macro padAligned(row, from, n) = forall j int {kid(row, j)} :: (from <= j && j < n) ==> (typeis(kid(row, j), "*ast.TableCell") && cellAlign(row, j) == east.AlignNone)
 macro oldKept() = (forall p addr {klen(p)} :: int(ifptr(p)) < old(allocbound()) ==> klen(p) == old(klen(p))) &&
                   (forall p addr, i int {kid(p, i)} :: int(ifptr(p)) < old(allocbound()) ==> kid(p, i) == old(kid(p, i))) &&
                   (forall w addr {par(w)} :: int(ifptr(w)) < old(allocbound()) ==> par(w) == old(par(w)))
@@ -134,15 +139,19 @@ func (*tableParagraphTransformer).parseRow
   ensures [nonnil] result != nil && fresh(result) && par(asnode(result)) == nil
   ensures [width] !isHeader ==> (klen(asnode(result)) == len(alignments) && cnt(asnode(result)) == len(alignments))
   ensures [count] cnt(asnode(result)) == klen(asnode(result))
+  ensures [alignment] cellsAligned(asnode(result), klen(asnode(result)))
   ensures [others] oldKept()
   loop 0 inv WF() && row != nil && fresh(row) && par(asnode(row)) == nil && klen(asnode(row)) == i && 0 <= i && (!isHeader ==> i <= len(alignments)) && oldKept()
   loop 0 inv 0 <= pos && limit <= len(line) && len(source) == srcLenOf(reader)
+  loop 0 inv [aligned] cellsAligned(asnode(row), i)
   loop 0 inv 0 <= segment.Start && segment.Start + len(line) <= len(source) && segment.Padding >= 0
   loop 1 inv WF() && row != nil && fresh(row) && par(asnode(row)) == nil && klen(asnode(row)) == i && 0 <= i && (!isHeader ==> i <= len(alignments)) && oldKept()
   loop 1 inv 0 <= pos && pos <= closure && closure <= limit && limit <= len(line) && len(source) == srcLenOf(reader)
   loop 1 inv 0 <= segment.Start && segment.Start + len(line) <= len(source) && segment.Padding >= 0
   loop 1 inv node != nil && isoNew(asnode(node)) && asnode(node) != asnode(row) && fresh(node)
+  loop 1 inv [aligned] cellsAligned(asnode(row), i) && (node.Alignment == east.AlignNone || (i < len(alignments) && node.Alignment == alignments[i]))
   loop 2 inv WF() && row != nil && fresh(row) && par(asnode(row)) == nil && klen(asnode(row)) == i && (!isHeader ==> i <= len(alignments)) && oldKept()
+  loop 2 inv [aligned] cellsAligned(asnode(row), i)
 
 // Transform: a table is only built when the candidate header row has exactly one cell per column of the delimiter
 // row; the header and every body row appended to the table then have that many cells (the table is rectangular)
